@@ -32,15 +32,30 @@
 (*   FlushAtomic      = FALSE  header and `extra` in two locked sections      *)
 (*   LatchChecked     = FALSE  the sticky error is not looked at              *)
 (*   CloseLatches     = FALSE  writing a Close frame does not latch close-sent*)
+(*   TimeoutReleases  = TRUE   a WriteControl that timed out waiting for the  *)
+(*                             lock "releases" it all the same (the release   *)
+(*                             is deferred before the lock is acquired): a    *)
+(*                             second token circulates in the 1-slot channel  *)
+(*                                                                            *)
+(* Deadlines.  A control opcode with the suffix "~" ("ping~") is sent with a  *)
+(* SHORT deadline: WriteControl waits for the lock in                         *)
+(*   select { case <-c.mu: ... case <-timer.C: return errWriteTimeout }       *)
+(* so such a call may give up (`Timeout`): it returns the timeout error,      *)
+(* writes nothing, latches nothing and leaves the lock alone.  Time is not    *)
+(* modelled: Timeout is enabled whenever the call waits (also with the lock   *)
+(* free - select chooses at random when both are ready, and the timer may     *)
+(* have fired before the goroutine got to the select).  The other opcodes     *)
+(* have a deadline far away (or none): they wait for ever.                    *)
 EXTENDS Naturals, Sequences, FiniteSets, TLC
 
 CONSTANTS Program,            \* [msgs, ctl, closer]:
                               \*   msgs   = sequence of messages, message = sequence of frames,
                               \*            frame = BOOLEAN (TRUE: a second transport write `extra`)
                               \*   ctl    = sequence (one per control sender) of sequences of
-                              \*            opcodes in {"ping", "pong", "close"}
+                              \*            opcodes in {"ping", "pong", "close"}, with "~" appended
+                              \*            for a short deadline
                               \*   closer = BOOLEAN (is there a process calling Conn.Close)
-          ControlTakesLock, FlushAtomic, LatchChecked, CloseLatches
+          ControlTakesLock, FlushAtomic, LatchChecked, CloseLatches, TimeoutReleases
 
 VARIABLES prog,    \* the program (see Program)
           lock,    \* holder of `mu`, or NoProc
@@ -65,10 +80,13 @@ Procs  == ProcsOf(prog)
 KIdx(p) == CHOOSE i \in 1..Len(prog.ctl) : KName(i) = p
 NCalls(p) == IF p = "D" THEN Len(prog.msgs)
              ELSE IF p = "X" THEN 1 ELSE Len(prog.ctl[KIdx(p)])
-Op(p)  == prog.ctl[KIdx(p)][call[p]]           \* K: opcode of the call in progress
+IsShort(o) == o \in {"ping~", "pong~", "close~"}
+Code(o) == CASE o = "ping~" -> "ping" [] o = "pong~" -> "pong" [] o = "close~" -> "close" [] OTHER -> o
+Op(p)    == Code(prog.ctl[KIdx(p)][call[p]])   \* K: opcode of the call in progress
+Short(p) == IsShort(prog.ctl[KIdx(p)][call[p]]) \* K: the call in progress has a short deadline
 Msg    == prog.msgs[call["D"]]                 \* D: message in progress
 HasExtra(e) == e.proc = "D" /\ prog.msgs[e.call][e.frame]
-IsClose(e)  == e.part = "ctl" /\ prog.ctl[KIdx(e.proc)][e.call] = "close"
+IsClose(e)  == e.part = "ctl" /\ Code(prog.ctl[KIdx(e.proc)][e.call]) = "close"
 CloseOnWire == \E i \in 1..Len(wire) : IsClose(wire[i])
 
 InitWith(pr) ==
@@ -114,6 +132,17 @@ Acquire(p) ==
        ELSE UNCHANGED lock
   /\ pc' = [pc EXCEPT ![p] = "chk"]
   /\ UNCHANGED <<prog, latch, closed, wire, call, fr, err, late, res>>
+
+\* case <-timer.C: return errWriteTimeout   (only a call with a short deadline gets here).
+\* Deviation TimeoutReleases: the deferred `c.mu <- true` runs although the lock was never
+\* taken; with the channel empty (somebody holds the lock) the send succeeds and the lock
+\* looks free while its holder is still writing; with the channel full the send blocks.
+Timeout(p) ==
+  /\ p \in KProcs /\ pc[p] = "acq" /\ Short(p) /\ ControlTakesLock
+  /\ IF TimeoutReleases THEN lock # NoProc /\ lock' = NoProc ELSE UNCHANGED lock
+  /\ err' = [err EXCEPT ![p] = "timeout"]
+  /\ pc'  = [pc EXCEPT ![p] = "ret"]
+  /\ UNCHANGED <<prog, latch, closed, wire, call, fr, late, res>>
 
 \* the sticky error is read again under the lock, before anything is written
 Check(p) ==
@@ -188,8 +217,9 @@ Return(p) ==
   /\ UNCHANGED <<prog, lock, latch, closed, wire, call, fr, err, late>>
 
 \* steps the transport does not see
-Internal(p) == \/ (p = "D" /\ (Prep \/ Rel1 \/ Acq2))
+Steady(p)   == \/ (p = "D" /\ (Prep \/ Rel1 \/ Acq2))
                \/ Acquire(p) \/ Check(p) \/ SetLatch(p) \/ Release(p) \/ Return(p)
+Internal(p) == Steady(p) \/ Timeout(p)
 
 Done == \A p \in Procs : pc[p] = "idle" /\ call[p] = NCalls(p)
 
@@ -227,8 +257,12 @@ WholeFrames ==
 AfterCloseWire == \A i \in 1..Len(wire) : IsClose(wire[i]) => i = Len(wire)
 
 \* a write call that began when a Close frame was on the wire fails with close-sent
+\* (a control write with a short deadline may instead have given up waiting for the lock)
+ShortCall(p, j) == p \in KProcs /\ IsShort(prog.ctl[KIdx(p)][j])
 AfterCloseRes ==
-  \A p \in Procs \ {"X"} : \A j \in 1..Len(res[p]) : res[p][j].late => res[p][j].r = "closesent"
+  \A p \in Procs \ {"X"} : \A j \in 1..Len(res[p]) :
+     res[p][j].late => \/ res[p][j].r = "closesent"
+                       \/ res[p][j].r = "timeout" /\ ShortCall(p, j)
 
 AfterClose == AfterCloseWire /\ AfterCloseRes
 
@@ -251,7 +285,10 @@ ResultsHonest ==
           /\ prog.msgs[j][f] => OnWire([proc |-> "D", call |-> j, frame |-> f, part |-> "extra"])
   /\ \A p \in KProcs : \A j \in 1..Len(res[p]) : res[p][j].r = "nil" =>
         OnWire([proc |-> p, call |-> j, frame |-> 1, part |-> "ctl"])
-  /\ \A p \in Procs : \A j \in 1..Len(res[p]) : res[p][j].r \in {"nil", "closesent", "other"}
+  /\ \A p \in Procs : \A j \in 1..Len(res[p]) :
+        \/ res[p][j].r \in {"nil", "closesent", "other"}
+        \/ /\ res[p][j].r = "timeout" /\ ShortCall(p, j)      \* gave up: nothing of it on the wire
+           /\ ~OnWire([proc |-> p, call |-> j, frame |-> 1, part |-> "ctl"])
 
 \* the messages that are completely on the wire (a prefix 1..n by InOrder)
 CompleteMsgs ==
